@@ -98,3 +98,30 @@ Proof.
     assert (c <= f' z) by (apply Hb; unfold Rmin, Rmax in Hz; destruct (Rle_dec y x); lra).
     rewrite Rabs_pos_eq; lra.
 Qed.
+
+(* --- continuity across a branch point --- *)
+Lemma continuity_pt_glue (f g h : R -> R) (c : R) :
+  (forall x, x < c -> h x = f x) -> (forall x, c <= x -> h x = g x) ->
+  continuity_pt f c -> continuity_pt g c -> f c = g c -> continuity_pt h c.
+Proof.
+  intros Hf Hg Cf Cg E eps Heps.
+  destruct (Cf eps Heps) as [a1 [Ha1 H1]]. destruct (Cg eps Heps) as [a2 [Ha2 H2]].
+  exists (Rmin a1 a2). split; [apply Rmin_pos; assumption|].
+  intros x [Hx Hd]. simpl in *. unfold R_dist in *.
+  rewrite (Hg c (Rle_refl c)).
+  destruct (Rlt_le_dec x c) as [Hlt|Hge].
+  - rewrite (Hf x Hlt), <- E. apply H1. split; [exact Hx|].
+    apply Rlt_le_trans with (Rmin a1 a2); [exact Hd|apply Rmin_l].
+  - rewrite (Hg x Hge). apply H2. split; [exact Hx|].
+    apply Rlt_le_trans with (Rmin a1 a2); [exact Hd|apply Rmin_r].
+Qed.
+
+Lemma ex_derive_Rpower_base (a u : R) : 0 < u -> ex_derive (fun x => Rpower x a) u.
+Proof.
+  intros Hu. eexists. apply (is_derive_Rpower_comp (fun x => x) a u 1 Hu). apply @is_derive_id.
+Qed.
+Lemma ex_derive_Rpower_exp (c v : R) : ex_derive (fun x => Rpower c x) v.
+Proof. unfold Rpower. auto_derive. exact I. Qed.
+
+Lemma continuity_pt_of_ex_derive (f : R -> R) (x : R) : ex_derive f x -> continuity_pt f x.
+Proof. intros H. apply continuity_pt_filterlim. now apply (ex_derive_continuous f). Qed.
